@@ -147,7 +147,8 @@ CHECKS = {
         "NodeDB.tla contract model checked by TLC; one history per distinct (operation, state) pair replayed on real badger and "
         "pathbadger with full read-back after every step, plus a full reader at every durable-write point (hook H1)",
         "Exhaustive TLC exploration of the contract model (versions 0..3, <=2 candidates per version and type, both root types, "
-        "same-version chains, pruning lag); every emitted history is executed on both real backends and every retained finalized "
+        "same-version chains, pruning lag; a line of versions over three keys); every emitted history is executed on both real "
+        "backends, on trees re-opened from the database and on long-lived tree objects, and every retained finalized "
         "root, pending candidate and still-claimed discarded candidate is read back completely after every operation and at every "
         "intermediate durable state inside Commit/Finalize/Prune.",
         "Trusted: TLC, JSON bridge, hook H1 placement. Well-formed API use only; declined operations are observations. Three open "
@@ -161,7 +162,7 @@ CHECKS = {
         "with TLC-enumerated preceding histories; after the crash the finalized state must equal the model's state before or after the "
         "operation (full read-back), the retry must reach the post-state and the rest of the history must run correctly.",
         "Trusted: TLC, JSON bridge, hook H1 (names checked against the spec's step lists in both directions). Process death, not "
-        "power loss; no crash inside one Badger flush; multipart restore crash points are not covered here.",
+        "power loss; no crash inside one Badger flush; multipart restore crash points are judged by the C12 check.",
         "DESIGN.md 4 C07"),
     "C13": (
         "WriteLog.tla (coalesced log, apply, single corruptions) checked by TLC; TLC-enumerated cases replayed on real "
@@ -170,8 +171,9 @@ CHECKS = {
         "corruption of its log, and every batch HISTORY over a two-key universe (remove / re-insert / remove inside one batch), is "
         "executed against the real databases: the served log must reproduce r2, and Apply must persist exactly when TLC says the "
         "corrupted log still yields the announced contents, leaving no root visible otherwise.",
-        "Trusted: TLC, JSON bridge, C02 (contents equality = root equality). GetWriteLog errors count as 'not served' and are "
-        "printed as OBSERVATION lines (pathbadger declines pairs whose batch rewrites a key with its old value). "
+        "Trusted: TLC, JSON bridge, C02 (contents equality = root equality). A GetWriteLog error for two different consecutive "
+        "roots is judged: one open known finding (pathbadger refuses pairs whose batch rewrites a key with its old value), "
+        "anything else alarms; r1 = r2 refusals are OBSERVATION lines. "
         "Single corruptions only; small key/value universe; batch histories over two keys.",
         "DESIGN.md 4 C13"),
     "C02": (
@@ -189,7 +191,8 @@ CHECKS = {
         "trees/overlays with every read compared after every operation; random-driver traces validated by TLC (TraceMkvs.tla)",
         "The model is the oracle (the property is a refinement). Every distinct (operation, model state) pair up to overlay depth 2-3 "
         "and random 40-step behaviours are executed on no-db/badger/pathbadger trees with ample, tight, tiny node caches and a "
-        "1-byte value cache; Get of every key, Seek+Next from every position and a full iteration are compared after every step; "
+        "1-byte value cache; Get of every key, Seek+Next from every position and a full iteration are compared after every step, "
+        "also for the second object of an Overlay.Copy while both are alive (ofork / fins / frem); "
         "random traces over larger alphabets are accepted by TLC only if every answer is the model's.",
         "Trusted: TLC, JSON bridge. Non-nil values; no mutation during iteration; two open known findings (value-cache eviction of "
         "an embedded leaf under a dirty parent; node cache <= path depth) are matched narrowly and everything else still alarms.",
